@@ -4,6 +4,8 @@ mod crash;
 mod exec;
 mod framework;
 mod gen;
+mod lanes;
+mod mini;
 mod model;
 mod mutate;
 mod ops;
@@ -48,7 +50,8 @@ fn main() {
                     .or_else(|| std::env::var("VERIF_TIER").ok())
                     .unwrap_or_else(|| "quick".into()),
             );
-            let code = framework::run_check(spec, tier, &[]);
+            let lanes = lanes::lanes_for(spec.id, tier == Tier::Thorough, framework::seed_from_env());
+            let code = framework::run_check(spec, tier, &lanes);
             std::process::exit(code);
         }
         "worker" => {
@@ -63,6 +66,19 @@ fn main() {
                 hang_mult: arg_val(&args, "--hang-mult").and_then(|s| s.parse().ok()).unwrap_or(1),
             };
             std::process::exit(framework::run_worker(spec, &a));
+        }
+        "mini" => {
+            let seed = args.get(3).and_then(|s| s.parse().ok()).unwrap_or(1);
+            std::process::exit(mini::run(&args[2], seed));
+        }
+        "tracehash" => {
+            let seed = args.get(2).and_then(|s| s.parse().ok()).unwrap_or(1);
+            let n = args.get(3).and_then(|s| s.parse().ok()).unwrap_or(100);
+            exec::install_panic_hook();
+            for l in props::c14::tracehash_lines(seed, n) {
+                println!("{l}");
+            }
+            std::process::exit(0);
         }
         "replay" => {
             let code = framework::run_replay(&args[2]);
